@@ -11,7 +11,7 @@ def gen(rng, tier, n):
         udpmaxq = rng.choice([0, 0, 1, 2])
         steps = []
         tok = 0
-        shape = rng.choice(["idle-reuse", "busy-reuse", "late-round-reuse", "late-round-reuse", "fresh", "mixed", "mixed"])
+        shape = rng.choice(["idle-reuse", "busy-reuse", "late-round-reuse", "late-round-reuse", "fresh", "mixed", "mixed", "slow-callback", "slow-callback"])
         nq = rng.randint(1, 4)
         if shape == "idle-reuse":
             steps += ["q:%d:ans%d.example" % (tok, tok), "settle", "sleep:%d" % rng.choice([20, 60])]
@@ -29,6 +29,17 @@ def gen(rng, tier, n):
             timeout = rng.choice([100, 250])
             tries = rng.choice([3, 4])
             steps += ["q:%d:sil%d.example" % (tok, tok), "sleep:%d" % rng.choice([650, 800, 950])]
+            tok += 1
+            steps += ["q:%d:sil%d.example" % (tok, tok)]
+            tok += 1
+        elif shape == "slow-callback":
+            # the completion callback of the first query runs (on the event thread) past the
+            # deadline of the second: when the thread computes its next sleep that deadline has
+            # already expired, the remaining time is 0
+            tries = rng.choice([1, 1, 2])
+            timeout = rng.choice([250, 300])
+            gap = rng.choice([20, 50])
+            steps += ["qs:%d:sil%d.example:%d" % (tok, tok, gap + rng.choice([40, 80, 120])), "sleep:%d" % gap]
             tok += 1
             steps += ["q:%d:sil%d.example" % (tok, tok)]
             tok += 1
